@@ -170,8 +170,13 @@ def project_d(lines):
                 evs.append({"a": "term", "t": tnum(r["t"]), "post": post_after(i, r["t"])})
             elif ev == "incr_checked":
                 evs.append({"a": "check", "t": tnum(r["t"]), "skip": bool(r.get("skip"))})
-            elif ev == "vbuild_wait":
+            elif ev in ("vbuild_wait", "build_spawned"):
                 evs += [{"a": "spawn", "t": tnum(r["t"])}, {"a": "sread", "t": tnum(r["t"])}]
+            elif ev == "build_reaped":       # the real shell (free-running binary)
+                if r["how"] == "killed":
+                    evs.append({"a": "cancelled", "t": tnum(r["t"])})
+                else:
+                    evs.append({"a": "sfinish", "t": tnum(r["t"]), "ok": r["how"] == "ok"})
             elif ev == "h_finish":
                 evs.append({"a": "sfinish", "t": tnum(r["t"]), "ok": r["outcome"] == "ok"})
             elif ev == "vbuild_done" and r["outcome"] == "cancelled":
@@ -185,9 +190,12 @@ def project_d(lines):
             elif ev == "h_notify":
                 evs.append({"a": "notify", "t": tnum(r["t"])})
             elif ev == "h_signal":
-                evs.append({"a": "signal"})
+                if not any(e.get("a") == "signal" for e in evs):
+                    evs.append({"a": "signal"})
             elif ev == "root_loop_exit":
                 if r.get("signalled"):
+                    if not any(e.get("a") == "signal" for e in evs):
+                        evs.append({"a": "signal"})     # free-running binary: the signal arrived some time before
                     evs.append({"a": "seesig"})
                 if not cfg["watch"]:
                     waits = any(x["ev"] == "root_wait_signal" for x in run[i + 1:i + 3])
@@ -196,6 +204,8 @@ def project_d(lines):
                 waited = True
             elif ev == "terminate_begin":
                 if waited:
+                    if not any(e.get("a") == "signal" for e in evs):
+                        evs.append({"a": "signal"})
                     evs.append({"a": "waitsigdone"})
                     waited = False
                 evs.append({"a": "terminate"})
